@@ -75,3 +75,21 @@ Fixpoint stranded (recovered : bool) (waiting : nat) (evs : list src_ev) : nat :
   | EvItem :: r => stranded recovered waiting r
   | EvPanic :: _ => if recovered then 0 else waiting
   end.
+
+(* ---------------------------------------------------------------------------------------------
+   How List.Merge (value/list.go) is left, and whether the flag `stopped` that ends its two reader goroutines is set:
+   the consumer wrapper sets it when the consumer says stop; otherwise it is set when the merged producer is left -
+   by `defer stopped.Store(true)` on EVERY exit path, a panic on the evaluating goroutine included (raised by the less
+   function or by the closure of the consuming stage: stack guard, panicking host function).  A plain store behind
+   the call is skipped by a panic. *)
+Inductive mexit := MConsumerStops | MReturns | MPanics.
+
+Definition merge_flag_set (deferred : bool) (e : mexit) : bool :=
+  match e with
+  | MConsumerStops | MReturns => true
+  | MPanics => deferred
+  end.
+
+(* steps until a reader goroutine of merge has returned, from the moment merge is left *)
+Definition merge_reader_steps (deferred : bool) (e : mexit) (remaining : nat) : nat :=
+  tochan_steps (merge_flag_set deferred e) remaining.
